@@ -176,7 +176,7 @@ Qed.
    balances, no fuel is exhausted, and with the channel drained everything written
    on that link has reached the peer's sink *)
 Lemma mux_stream_exact P cfg mtu_i mtu_r d ini rsp ls :
-  wf_params_b P = true -> wf_setup_b ini rsp mtu_i mtu_r = true ->
+  wf_params_b P = true -> wf_link_b ini rsp mtu_i mtu_r = true ->
   cfg_get d cfg = Some (ini, rsp) ->
   exists x, proj d (mrun P (msetup cfg mtu_i mtu_r) ls) = Some x /\
     let sl := proj_sched P d (msetup cfg mtu_i mtu_r) ls in
